@@ -117,4 +117,4 @@ def run(R) -> None:
     )
     R.rule('C20.R1', lambda: r1_same_tokeniser(R))
     R.rule('C20.R2', lambda: r2_nodes_edges(R))
-    R.rule('C20.R3', lambda: c01.r3_one_template(R))
+    R.rule('C20.R3', lambda: (c01.r3_one_template(R), c01.r1_term_rendering(R)))
